@@ -128,7 +128,7 @@ DTake(acc, m, t, checkExpiry) ==   \* the queue hands out request m at time t
    bad  |-> acc.bad
             \cup (IF acc.pend[m] = None THEN {"AtMostOnce"} ELSE {})
             \cup (IF checkExpiry /\ acc.pend[m] # None /\ t - acc.pend[m][1].last > Cfg.ttl THEN {"NoProcessAfterExpiry"} ELSE {})
-            \cup (IF acc.pend[m] # None /\ Ahead(acc.pend, m, t) # {} THEN {"FifoOrder"} ELSE {})]
+            \cup (IF acc.pend[m] # None /\ t - acc.pend[m][1].first <= Cfg.ttl /\ Ahead(acc.pend, m, t) # {} THEN {"FifoOrder"} ELSE {})]
 
 DEnd(acc, m, ok, t) ==
   IF ok \/ acc.hand[m] = None \/ acc.pend[m] # None \/ t - acc.hand[m][1].last > Cfg.ttl
@@ -145,7 +145,10 @@ DFold(acc, s, i, t) ==
 DOp(e) ==
   LET a0 == [pend |-> pend, hand |-> hand, seq |-> seq, bad |-> {}] IN
   IF e.op = "enq" /\ e.acc THEN
-       IF pend[e.a] # None THEN [a0 EXCEPT !.pend[e.a] = <<[@[1] EXCEPT !.last = now]>>]
+       IF pend[e.a] # None THEN
+            IF now - pend[e.a][1].first > Cfg.ttl      \* possibly dropped meanwhile: then a new arrival at the back
+              THEN [a0 EXCEPT !.pend[e.a] = <<[@[1] EXCEPT !.last = now, !.qt = seq]>>, !.seq = @ + 1]
+              ELSE [a0 EXCEPT !.pend[e.a] = <<[@[1] EXCEPT !.last = now]>>]
        ELSE [a0 EXCEPT !.pend[e.a] = <<[first |-> now, last |-> now, qt |-> seq]>>, !.seq = @ + 1]
   ELSE IF e.op = "deq" THEN
        IF e.ret = 0 THEN [a0 EXCEPT !.bad = IF \E x \in Macs : pend[x] # None /\ now - pend[x][1].first <= Cfg.ttl THEN {"FifoOrder"} ELSE {}]
